@@ -76,6 +76,9 @@ def build_value(spec):
                 df = schema_of(carry).validate(df)
             except Exception:
                 raise Skip("carry-frame-not-valid-for-carried-schema")
+        if spec.get("edit") is not None:
+            # edited in place after it was validated: same object, same attached schema, new content
+            df["a"] = pd.Series(list(spec["edit"]), dtype="int64", index=df.index)
         return df
     return spec.get("v")
 
